@@ -316,6 +316,7 @@ class Exchange(Scenario):
             "malform": mal,
             "hangup_at": rng.randrange(0, 300) if faults and mal is None and framing == "length" and rng.random() < 0.5 else None,
             "reset_on_send": rng.randrange(0, 8) if faults and rng.random() < 0.3 else None,
+            "timeout_at": rng.randrange(0, 12) if faults and mal is None and rng.random() < 0.25 else None,
             "client": "half_close" if mal is not None or rng.random() < 0.6 else "keep_open",
             "rbuf": rng.choice([1, 16, 64, 8192]),
             "max_fragment": rng.choice([0, 0, 1, 7]),
@@ -485,17 +486,38 @@ class Exchange(Scenario):
             segments = [{"data": rq["head"]}, {"data": rq["wire_body"], "after": b"100 Continue"}]
         reset = case.get("reset_on_send")
         reset = reset if isinstance(reset, int) and reset >= 0 else None
+        tmo = case.get("timeout_at")
+        tmo = tmo if isinstance(tmo, int) and tmo >= 0 else None
+        if tmo is not None:
+            # unread request bytes + a client that keeps the connection open make the drain loop wait for the client
+            # (by design: "we can read everything"); the stalled-client fault therefore ends with the client closing
+            half_close = True
         script = net.ClientScript(segments, half_close=half_close)
         tag = f"proto={proto}/framing={framing}"
         tr.add("request", rq["head"][:200], "body", len(rq["wire_body"]), "client", "half_close" if half_close else "keep_open", "reset", reset, "truncated", truncated)
         try:
-            sock, server, selmod, err = net.run_exchange(app, script, Tape(case.get("tape")), protocol=proto, rbuf=max(1, int(case.get("rbuf", 8192) or 1)), reset_on_send=reset, max_fragment=int(case.get("max_fragment", 0) or 0))
+            sock, server, selmod, err = net.run_exchange(app, script, Tape(case.get("tape")), protocol=proto, rbuf=max(1, int(case.get("rbuf", 8192) or 1)), reset_on_send=reset, max_fragment=int(case.get("max_fragment", 0) or 0), timeout_at=tmo)
         except SimHang as e:
             out.violate(f"{pre}/server-blocks-or-spins/{tag}", str(e))
             return self.finish(out, tr, case, rq, None)
         tr.add("sent", bytes(sock.sent)[:300], "recv_calls", sock.recv_calls, "err", type(err).__name__ if err else None)
         if err is not None:
             out.violate(f"{pre}/handler-raises/{type(err).__name__}/{tag}", f"{type(err).__name__}: {err}")
+            return self.finish(out, tr, case, rq, sock)
+        if sock.timeout_fired:
+            # the stalled-client fault: the handler must swallow the timeout (connection dropped), an application that was
+            # already running sees an OSError from its read and its iterable is still closed exactly once
+            out.fault("socket_timeout_on_recv")
+            if record["calls"] > 1:
+                out.violate(f"{pre}/application-not-called-once/{tag}", f"application called {record['calls']} times")
+            if record["calls"] == 1:
+                got, eof, exc = record.get("read", (b"", False, None))
+                expected_body = http_ref.dechunk_strict(rq["wire_body"])[0] if framing == "chunked" else rq["body"]
+                if exc is not None and not isinstance(exc, OSError):
+                    out.violate(f"{pre}/timeout-surfaces-as/{type(exc).__name__}/{tag}", f"{type(exc).__name__}: {exc}")
+                elif not expected_body.startswith(got):
+                    out.violate(f"{pre}/wrong-body-bytes/{tag}", f"read {got[-30:]!r} after a socket timeout, not a prefix of the body")
+                # (whether the iterable is still closed when the drain loop itself hits the timeout is not part of C19: observation O5)
             return self.finish(out, tr, case, rq, sock)
         if record["calls"] == 0 and sock.reset_fired:
             out.fault("reset_on_send")
@@ -586,7 +608,7 @@ class Exchange(Scenario):
         app = case.get("app") if isinstance(case.get("app"), dict) else {}
         out.nontrivial = bool(rq["body"]) or any(app.get("chunks", []))
         out.key = f"{rq['head']!r}|{rq['wire_body']!r}|{case.get('proto')}|{app}|{case.get('rbuf')}|{case.get('client')}|{case.get('reset_on_send')}|{case.get('hangup_at')}|{len(case.get('tape', []))}|{case.get('max_fragment')}"
-        faulty = rq["mal"] is not None or isinstance(case.get("hangup_at"), int) or isinstance(case.get("reset_on_send"), int)
+        faulty = rq["mal"] is not None or isinstance(case.get("hangup_at"), int) or isinstance(case.get("reset_on_send"), int) or isinstance(case.get("timeout_at"), int)
         out.config = "fault-injecting" if faulty else "fault-free"
         return out
 
